@@ -26,14 +26,16 @@ RULE = ("three input families per format: (1) random text / bytes-like strings, 
         "odML element / key names with wrong nesting, repeated, missing, unknown and differently-cased elements, XML "
         "attributes, processing instructions, comments, CDATA, empty text, unparsable values, dates, ids and "
         "cardinalities, duplicate sibling names, (3) structural mutations (delete, duplicate, swap, rename, re-type a "
-        "subtree, corrupt a scalar) of valid files written by the library; x XML strict/lenient x from_string/from_file, "
+        "subtree, corrupt a scalar) of valid files written by the library, (4) valid files with exactly one injected defect "
+        "(duplicate sibling, unknown element, unconvertible value, nameless Property, XML attribute, bad cardinality, bad id) "
+        "after which valid siblings follow: the lenient reader must keep every valid part; x XML strict/lenient x from_string/from_file, "
         "ODMLReader XML/JSON/YAML string+file, DictReader strict/lenient, odml.load; non-trivial = input that is "
         "well-formed for its format (the reader gets past the tokenizer); distinct = hash of the input text")
 ASSUMPTIONS = ["None from ODMLReader for text that is not JSON / YAML is the documented 'could not parse' outcome",
                "'shaped like an odML dictionary' = mappings / lists nested as the 1.1 layout prescribes (Document "
                "mapping, sections/properties lists of mappings); keys and scalars arbitrary",
                "step budget = 3 million Python calls per reader call (>= 1000x what valid files of this size need)"]
-REQUIRED_MONITORS = ["totality", "lenient-never-raises", "returned-documents-wellformed"]
+REQUIRED_MONITORS = ["totality", "lenient-never-raises", "returned-documents-wellformed", "lenient-keeps-valid-parts"]
 
 BUDGET = 3000000
 XML_TAGS = ["odML", "section", "property", "name", "type", "id", "value", "definition", "reference", "unit", "uncertainty",
@@ -495,6 +497,150 @@ def run_text(ctx, text, case, sdir):
         judge(rec, "odmlreader-%s.from_file" % fmt.lower(), "text", o[0], o[1], None, o[2], case, o[3], none_ok=not parsable)
 
 
+def one_defect_spec(rng):
+    """A valid document with several siblings at every level (so that something can follow a defect)."""
+    spec = gen.gen_doc(rng, max_nodes=14, hostile=0.1, tuples=False, cards=False)
+    # make sure the first top level Section has >= 3 Properties and >= 3 sub-Sections
+    top = spec["sections"][0]
+    while len(top["properties"]) < 3:
+        top["properties"].append(gen.gen_prop(rng, "extra_p%d" % len(top["properties"]), 0.0, tuples=False, cards=False))
+    while len(top["sections"]) < 3:
+        top["sections"].append(gen.gen_sec(rng, "extra_s%d" % len(top["sections"]), 0, [2], 0.0, tuples=False, cards=False))
+    for _, n in model.walk(spec):
+        if n["k"] == "prop":
+            n["dependency"] = n["dependency_value"] = None
+    from checks.c01_xml import foreign_safe
+    return foreign_safe(gen.normal_form(spec))
+
+
+DEFECTS = ["duplicate-section", "duplicate-property", "unknown-element", "bad-value", "nameless-property",
+           "attribute", "bad-cardinality", "bad-id"]
+
+
+def inject_xml_defect(rng, text, defect):
+    from lxml import etree
+    root = etree.fromstring(text.encode("utf-8"))
+    top = root.find("section")
+    if defect == "duplicate-section":
+        subs = top.findall("section")
+        k = rng.randrange(0, len(subs) - 1)          # never the last: something valid must follow
+        dup = copy.deepcopy(subs[k])
+        dup.find("id").text = "00000000-0000-4000-8000-%012d" % rng.randrange(10 ** 12)
+        subs[k].addnext(dup)
+    elif defect == "duplicate-property":
+        props = top.findall("property")
+        k = rng.randrange(0, len(props) - 1)
+        dup = copy.deepcopy(props[k])
+        dup.find("id").text = "00000000-0000-4000-8000-%012d" % rng.randrange(10 ** 12)
+        props[k].addnext(dup)
+    elif defect == "unknown-element":
+        e = etree.Element("bogus")
+        e.text = "x"
+        top.insert(rng.randrange(len(top)), e)
+    elif defect == "bad-value":
+        e = etree.fromstring("<property><name>defective</name><value>not-a-number</value><type>int</type></property>")
+        top.insert(rng.randrange(len(top)), e)
+    elif defect == "nameless-property":
+        e = etree.fromstring("<property><value>1</value><type>int</type></property>")
+        top.insert(rng.randrange(len(top)), e)
+    elif defect == "attribute":
+        top.findall("property")[0].set("foo", "bar")
+    elif defect == "bad-cardinality":
+        e = etree.Element("prop_cardinality")
+        e.text = "(3,1)"
+        top.insert(0, e)
+    elif defect == "bad-id":
+        top.findall("property")[1].find("id").text = "not-an-id"
+    return etree.tounicode(root)
+
+
+def check_keeps_valid_parts(ctx, spec, text, defect, case):
+    """Lenient mode: every problem a warning and all valid parts are kept."""
+    from odml.tools.xmlparser import XMLReader
+    rec = ctx.rec
+    rec.monitor("lenient-keeps-valid-parts")
+    rd = XMLReader(ignore_errors=True, show_warnings=False)
+    try:
+        doc = rd.from_string(text)
+    except Exception as exc:
+        rec.violation("xml/lenient/one-defect:%s/raised-%s" % (defect, type(exc).__name__), str(exc)[:150], case)
+        return
+    from checks.c01_xml import strip_model
+    got = strip_model(model.model_of(doc))
+    exp = strip_model(spec)
+    have = {p: n for p, n in model.walk(got)}
+    for path, node in model.walk(exp):
+        g = have.get(path)
+        if g is None:
+            rec.violation("xml/lenient/one-defect:%s/valid-%s-lost" % (defect, node["k"]),
+                          "%s is missing after a lenient read (warnings: %d)" % (path, len(rd.warnings)), case)
+            return
+        d = [i for i in model.diff({k: v for k, v in node.items() if k not in ("sections", "properties")},
+                                   {k: v for k, v in g.items() if k not in ("sections", "properties")})
+             if not (defect == "bad-id" and i["field"] == "id") and not (defect == "bad-cardinality" and i["field"] == "prop_cardinality")]
+        if d:
+            rec.violation("xml/lenient/one-defect:%s/valid-%s-altered:%s" % (defect, node["k"], d[0]["field"]),
+                          "%s: %r" % (path, d[:1]), case)
+            return
+    if defect not in ("bad-id",) and not rd.warnings:
+        rec.violation("xml/lenient/one-defect:%s/no-warning-recorded" % defect, "", case)
+
+
+def inject_dict_defect(rng, d, defect):
+    d = copy.deepcopy(d)
+    top = d["Document"]["sections"][0]
+    if defect == "duplicate-section":
+        k = rng.randrange(0, len(top["sections"]) - 1)
+        dup = copy.deepcopy(top["sections"][k])
+        dup["id"] = "00000000-0000-4000-8000-%012d" % rng.randrange(10 ** 12)
+        top["sections"].insert(k + 1, dup)
+    elif defect == "duplicate-property":
+        k = rng.randrange(0, len(top["properties"]) - 1)
+        dup = copy.deepcopy(top["properties"][k])
+        dup["id"] = "00000000-0000-4000-8000-%012d" % rng.randrange(10 ** 12)
+        top["properties"].insert(k + 1, dup)
+    elif defect == "unknown-element":
+        top["bogus"] = "x"
+    elif defect == "bad-value":
+        top["properties"].insert(rng.randrange(len(top["properties"])), {"name": "defective", "value": ["not-a-number"], "type": "int"})
+    elif defect == "nameless-property":
+        top["properties"].insert(rng.randrange(len(top["properties"])), {"value": [1], "type": "int"})
+    elif defect == "attribute":
+        top["properties"][0]["foo"] = "bar"
+    elif defect == "bad-cardinality":
+        top["prop_cardinality"] = [3, 1]
+    elif defect == "bad-id":
+        top["properties"][1]["id"] = "not-an-id"
+    return d
+
+
+def check_dict_keeps_valid_parts(ctx, spec, d, defect, case):
+    from odml.tools.dict_parser import DictReader
+    rec = ctx.rec
+    rec.monitor("lenient-keeps-valid-parts")
+    rd = DictReader(show_warnings=False, ignore_errors=True)
+    try:
+        doc = rd.to_odml(copy.deepcopy(d))
+    except Exception as exc:
+        rec.violation("dict/lenient/one-defect:%s/raised-%s" % (defect, type(exc).__name__), str(exc)[:150], case)
+        return
+    got = model.model_of(doc)
+    have = {p: n for p, n in model.walk(got)}
+    for path, node in model.walk(spec):
+        g = have.get(path)
+        if g is None:
+            rec.violation("dict/lenient/one-defect:%s/valid-%s-lost" % (defect, node["k"]),
+                          "%s is missing after a lenient read (warnings: %d)" % (path, len(rd.warnings)), case)
+            return
+        dd = [i for i in model.diff({k: v for k, v in node.items() if k not in ("sections", "properties")},
+                                    {k: v for k, v in g.items() if k not in ("sections", "properties")})
+              if not (defect == "bad-id" and i["field"] == "id") and not (defect == "bad-cardinality" and i["field"] == "prop_cardinality")]
+        if dd:
+            rec.violation("dict/lenient/one-defect:%s/valid-%s-altered:%s" % (defect, node["k"], dd[0]["field"]),
+                          "%s: %r" % (path, dd[:1]), case)
+            return
+
+
 def valid_files(rng):
     spec = gen.gen_doc(rng, max_nodes=8, hostile=0.3, tuples=False)
     m = spec
@@ -508,6 +654,12 @@ def run_case(case, ctx, sdir):
         if fam == "text":
             run_xml(ctx, case["text"], case, sdir)
             run_text(ctx, case["text"], case, sdir)
+        elif fam == "xml-one-defect":
+            run_xml(ctx, case["text"], case, sdir)
+            check_keeps_valid_parts(ctx, dec(case["spec"]), case["text"], case["defect"], case)
+        elif fam == "dict-one-defect":
+            run_dict(ctx, dec(case["dict"]), case, sdir)
+            check_dict_keeps_valid_parts(ctx, dec(case["spec"]), dec(case["dict"]), case["defect"], case)
         elif fam in ("xml-grammar", "xml-mutation", "xml-own-file"):
             run_xml(ctx, case["text"], case, sdir)
         else:
@@ -524,11 +676,27 @@ def run(ctx):
             continue
         rng = random.Random("C16|%s|%d" % (ctx.seed, i))
         fam = ["text", "xml-grammar", "xml-grammar", "xml-mutation", "dict-grammar", "dict-grammar", "dict-mutation",
-               "xml-own-file"][i % 8]
+               "xml-own-file", "xml-one-defect", "dict-one-defect"][i % 10]
         if fam == "text":
             case = {"family": fam, "text": rand_text(rng)}
         elif fam == "xml-grammar":
             case = {"family": fam, "text": rand_xml_tree(rng)}
+        elif fam == "xml-one-defect":
+            spec = one_defect_spec(rng)
+            defect = DEFECTS[(i // 10) % len(DEFECTS)]
+            try:
+                text = inject_xml_defect(rng, emit.xml_from_model(spec).split("?>", 1)[1], defect)
+            except Exception:
+                continue
+            case = {"family": fam, "text": text, "spec": enc(spec), "defect": defect}
+        elif fam == "dict-one-defect":
+            spec = one_defect_spec(rng)
+            defect = DEFECTS[(i // 10) % len(DEFECTS)]
+            try:
+                d = inject_dict_defect(rng, emit.dict_from_model(spec), defect)
+            except Exception:
+                continue
+            case = {"family": fam, "dict": enc(d), "spec": enc(spec), "defect": defect}
         elif fam == "xml-mutation":
             x, _ = valid_files(rng)
             case = {"family": fam, "text": mutate_xml(rng, x.split("?>", 1)[1])}
